@@ -70,3 +70,40 @@ package udpip
 //@ func (*internalLink).processPacket
 //@   props C08
 //@   requires pkt != nil && pkt.RemoteAddr != nil && cap(pkt.RawPacket) >= 64
+
+//@ # ---- C14: the receive loop returns or hands off every packet it took from the pool exactly once
+//@ import conn "github.com/scionproto/scion/private/underlay/conn"
+//@ extern github.com/scionproto/scion/private/underlay/conn.NewReadMessages
+//@   modifies nothing
+//@   ensures len(result) == n
+//@ iface router.BatchConn.ReadBatch
+//@   modifies arr(arg0)
+//@   ensures result1 == nil ==> 0 <= result0 && result0 <= len(arg0)
+//@ # delivering a packet to a link gives it away (to a processor queue, or back to the pool when the queue is full)
+//@ iface udpLink.receive
+//@   requires router.owned[p]
+//@   modifies router.owned[p], *p
+//@   ensures !router.owned[p]
+//@ macro held(j, i, nb) = ((0 <= j && j < i) || (nb <= j && j < batchSize))
+//@ func (*udpConnection).receive
+//@   props C14
+//@   nosafety
+//@   requires batchSize > 0
+//@   requires forall q *router.Packet :: !router.owned[q]
+//@   loop 1 invariant 0 <= numReusable && numReusable <= batchSize && len(packets) == batchSize && len(msgs) == batchSize
+//@   loop 1 invariant forall j int :: batchSize-numReusable <= j && j < batchSize ==> router.owned[packets[j]]
+//@   loop 1 invariant forall j int, k int :: batchSize-numReusable <= j && j < k && k < batchSize ==> packets[j] != packets[k]
+//@   # taking fresh buffers for the slots used in the previous round
+//@   loop 2 invariant 0 <= rangeint_iter && rangeint_iter < batchSize-numReusable && 0 <= numReusable && numReusable <= batchSize && len(packets) == batchSize && len(msgs) == batchSize
+//@   loop 2 invariant forall j int :: held(j, rangeint_iter, batchSize-numReusable) ==> router.owned[packets[j]]
+//@   loop 2 invariant forall j int, k int :: held(j, rangeint_iter, batchSize-numReusable) && held(k, rangeint_iter, batchSize-numReusable) && j < k ==> packets[j] != packets[k]
+//@   # handing the received packets to their links
+//@   loop 3 invariant 0 <= (rangeindex+1) && (rangeindex+1) <= numPkts
+//@   loop 3 invariant numPkts <= batchSize
+//@   loop 3 invariant len(packets) == batchSize && len(msgs) == batchSize
+//@   loop 3 invariant forall j int :: (rangeindex+1) <= j && j < batchSize ==> router.owned[packets[j]]
+//@   loop 3 invariant forall j int, k int :: (rangeindex+1) <= j && j < k && k < batchSize ==> packets[j] != packets[k]
+//@   # shutdown: the unused buffers go back to the pool
+//@   loop 4 invariant 0 <= (rangeindex+1) && (rangeindex+1) <= numReusable && 0 <= numReusable && numReusable <= batchSize && len(packets) == batchSize
+//@   loop 4 invariant forall j int :: batchSize-numReusable+(rangeindex+1) <= j && j < batchSize ==> router.owned[packets[j]]
+//@   loop 4 invariant forall j int, k int :: batchSize-numReusable+(rangeindex+1) <= j && j < k && k < batchSize ==> packets[j] != packets[k]
